@@ -122,40 +122,54 @@ type buildOpts struct {
 // them still run, the ones that call a stub report no verdict (see worker/main.go, "DEGRADED").
 func buildWorker(scratch string, bo buildOpts) (string, *instrument.Report, error) {
 	exportFile := ""
-	var stubbed []string
+	var stubbed, dropped []string
+	dropGen := map[string]bool{}
+	linesOf := func(file, errText string) (lines []int) {
+		re := regexp.MustCompile(regexp.QuoteMeta(file) + `:(\d+):`)
+		for _, m := range re.FindAllStringSubmatch(errText, -1) {
+			n, _ := strconv.Atoi(m[1])
+			lines = append(lines, n)
+		}
+		return
+	}
 	for attempt := 0; ; attempt++ {
-		bin, rep, err := buildWorkerOnce(scratch, bo, exportFile)
+		bin, rep, err := buildWorkerOnce(scratch, bo, exportFile, dropGen)
 		if rep != nil {
-			rep.Stubbed = stubbed
+			rep.Stubbed, rep.DroppedGen = stubbed, dropped
 		}
 		if err == nil || rep == nil || rep.ExportFile == "" || attempt >= 8 {
 			return bin, rep, err
 		}
-		// lines of the export file named by the compiler
-		re := regexp.MustCompile(regexp.QuoteMeta(rep.ExportFile) + `:(\d+):`)
-		var lines []int
-		for _, m := range re.FindAllStringSubmatch(err.Error(), -1) {
-			n, _ := strconv.Atoi(m[1])
-			lines = append(lines, n)
+		progress := false
+		// statements of the generated globals file the compiler rejects are left out
+		for _, tag := range instrument.GenLineTags(rep.GlobalsFile, linesOf(rep.GlobalsFile, err.Error())) {
+			if !dropGen[tag] {
+				dropGen[tag] = true
+				dropped = append(dropped, tag)
+				progress = true
+			}
 		}
-		if len(lines) == 0 {
+		// functions of the export file the compiler rejects are replaced by stubs
+		if lines := linesOf(rep.ExportFile, err.Error()); len(lines) > 0 {
+			next := filepath.Join(scratch, fmt.Sprintf("zz_verif_export_stub%s_%d.go", bo.outName, attempt))
+			names, serr := instrument.StubExport(rep.ExportFile, next, lines)
+			if serr == nil && len(names) > 0 {
+				stubbed = append(stubbed, names...)
+				exportFile = next
+				progress = true
+			}
+		}
+		if !progress {
 			return bin, rep, err
 		}
-		next := filepath.Join(scratch, fmt.Sprintf("zz_verif_export_stub%s_%d.go", bo.outName, attempt))
-		names, serr := instrument.StubExport(rep.ExportFile, next, lines)
-		if serr != nil || len(names) == 0 {
-			return bin, rep, err
-		}
-		stubbed = append(stubbed, names...)
-		exportFile = next
 	}
 }
 
-func buildWorkerOnce(scratch string, bo buildOpts, exportFile string) (string, *instrument.Report, error) {
+func buildWorkerOnce(scratch string, bo buildOpts, exportFile string, dropGen map[string]bool) (string, *instrument.Report, error) {
 	sub := filepath.Join(scratch, "ov"+bo.outName)
 	os.MkdirAll(sub, 0o755)
 	rep, err := instrument.Generate(instrument.Options{RepoDir: repoDir, BuildDir: "/repo", VerifDir: verifDir, OutDir: sub,
-		NoShim: bo.noShim, Dense: bo.dense, ExtraFiles: bo.extra, ExportFile: exportFile})
+		NoShim: bo.noShim, Dense: bo.dense, ExtraFiles: bo.extra, ExportFile: exportFile, DropGen: dropGen})
 	if err != nil {
 		return "", nil, err
 	}
@@ -813,7 +827,7 @@ func doCheck(id, tier string, keep bool) int {
 	cov["unreproducible_candidates"] = unrepro
 	if instr != nil {
 		cov["instrumentation"] = map[string]any{"rewritten_files": instr.Rewritten, "R1_imports": instr.R1, "R2_map_ranges": instr.R2,
-			"R3_time_now": instr.R3, "R4_dense_points": instr.R4, "degraded": instr.Degraded, "stubbed_export_functions": instr.Stubbed}
+			"R3_time_now": instr.R3, "R4_dense_points": instr.R4, "degraded": instr.Degraded, "stubbed_export_functions": instr.Stubbed, "package_level_variables_covered": instr.Globals, "dropped_generated_statements": instr.DroppedGen}
 	}
 	if _, ok := cov["states"]; ok {
 		if _, ok2 := cov["traces_validated_against_impl"]; !ok2 {
